@@ -6,6 +6,9 @@ _here = os.path.dirname(os.path.abspath(__file__))
 _spec = importlib.util.spec_from_file_location('unit_alloc_base', os.path.join(_here, '..', 'alloc', 'unit.py'))
 _alloc = importlib.util.module_from_spec(_spec)
 _spec.loader.exec_module(_alloc)
+_cs = importlib.util.spec_from_file_location('storage_common', os.path.join(_here, 'common.py'))
+_common = importlib.util.module_from_spec(_cs)
+_cs.loader.exec_module(_common)
 
 S = 'src/storage/mod.rs'
 N8 = [('N8', r"AccessMutReturn<'_, T>", '&mut T'), ('N8', r"AccessMutReturn<'a, T>", "&'a mut T"),
@@ -23,6 +26,7 @@ def build():
     u.spec = [x for x in u.spec if x != 'alloc/spec_trace.rs'] + ['storage/spec.rs']
     u.files = u.files + [S, 'src/storage/entry.rs', 'src/storage/generic.rs', 'src/storage/drain.rs']
     u.struct('src/storage/track.rs', ['enum ComponentEvent'], derive='Clone, Copy, PartialEq, Eq, Structural')
+    _common.add_trait(u)
     u.struct(S, ['type InsertResult'])
     u.struct('src/error.rs', ['enum Error'], derive='Debug')
     u.struct(S, ['struct MaskedStorage'])
